@@ -1,4 +1,5 @@
-import MjProof.Lemmas.Island
+import MjProof.Lemmas.IslandPipe
+import MjProof.Lemmas.IslandFlood
 import Mathlib.Logic.Relation
 /-
 C17  Constraint islands are the connected components of coupling.
@@ -13,6 +14,10 @@ Vocabulary (defined in `Lemmas/Island.lean`):
   `Conn E a b`        equivalence closure of the edge list `E` (= `Relation.EqvGen`, see `conn_iff_eqvGen`)
   `Touched E t`       `t` is an endpoint of an edge: some constraint is incident to tree `t`
   `IsMinOf E a m`     `m` is the smallest tree connected to `a`
+  `schedule rows flexes`  the merges `unionConstraintTrees` issues for constraint rows / stiffness-active flexes
+  `RowOk n ts`        tree lists `treeNext` can yield for one constraint; `RowsShape` rows start with a constraint
+  `owners [] rows`    for every scalar row of efc, the tree list of its constraint
+  `MapsSpec keys nb m`  counting-sort maps: mutually inverse permutations, contiguous ascending blocks
 -/
 namespace MjProof.C17
 open MjProof.Island
@@ -142,65 +147,131 @@ theorem assign_ascending (n : Nat) (ops : List DsuOp) (hok : OpsOk n ops) (dofnu
   obtain ⟨p, e, hs, hI, hact, hconn⟩ := runOps_spec n ops hok
   obtain ⟨out, eo, ho⟩ := dsuAssign_spec (dofnum := dofnum) hI (by omega)
   rw [hs] at eo ho
-  have hisz := ho.isz
-  have hpsz : out.parent.size = n := by rw [ho.compr.1]; exact hs
-  -- rank of roots
-  have hroot : ∀ t, Touched (opsEdges ops) t → par p (rootOf p t) = rootOf p t :=
-    fun t ht => par_rootOf hI ((hact t).mpr ht)
-  have hrank : ∀ a b, Touched (opsEdges ops) a → Touched (opsEdges ops) b →
-      (rootsBelow p (rootOf p a) < rootsBelow p (rootOf p b) ↔ rootOf p a < rootOf p b) := by
-    intro a b ha hb
-    constructor
-    · intro h
-      by_cases hlt : rootOf p a < rootOf p b
-      · exact hlt
-      · have := rootsBelow_mono p (show rootOf p b ≤ rootOf p a by omega); omega
-    · intro h; exact rootsBelow_lt p h (hroot a ha)
-  have hrank_eq : ∀ a b, Touched (opsEdges ops) a → Touched (opsEdges ops) b →
-      (rootsBelow p (rootOf p a) = rootsBelow p (rootOf p b) ↔ rootOf p a = rootOf p b) := by
-    intro a b ha hb
-    constructor
-    · intro h
-      rcases Nat.lt_trichotomy (rootOf p a) (rootOf p b) with h1 | h1 | h1
-      · have := (hrank a b ha hb).mpr h1; omega
-      · exact h1
-      · have := (hrank b a hb ha).mpr h1; omega
-    · intro h; rw [h]
-  refine ⟨p, out, e, eo, hisz, hpsz, ?_, ?_, ?_, ?_, ?_, ?_, ho.ndof⟩
-  · intro t h
-    by_cases ht : par p t = -1
-    · rw [ho.isl_neg t h ht]
-      simp only [true_iff]
-      intro htt; exact (hact t).mpr htt ht
-    · rw [ho.isl_pos t h ht]
-      constructor
-      · intro h'; omega
-      · intro h'; exact absurd ((hact t).mp ht) h'
-  · intro t h ht
-    rw [ho.isl_pos t h ((hact t).mpr ht)]
-    refine ⟨by omega, ?_⟩
-    rw [ho.nisl]
-    have hlt : rootOf p t < n := by
-      have := rootOf_lt_size (hI.lt_size ((hact t).mpr ht)); omega
-    have := rootsBelow_lt p hlt (hroot t ht)
-    omega
-  · intro a b ha hb hta htb
-    rw [ho.isl_pos a ha ((hact a).mpr hta), ho.isl_pos b hb ((hact b).mpr htb), ← hconn a b,
-      ← hrank_eq a b hta htb]
-    omega
-  · intro a b ha hb ma mb hta htb hma hmb
-    rw [ho.isl_pos a ha ((hact a).mpr hta), ho.isl_pos b hb ((hact b).mpr htb)]
-    rw [isMinOf_unique hma (rootOf_isMin hI hconn a), isMinOf_unique hmb (rootOf_isMin hI hconn b),
-      ← hrank a b hta htb]
-    omega
-  · intro c hc
-    rw [ho.nisl] at hc
-    obtain ⟨r, hr, hself, hrc⟩ := rootsBelow_surj p n c hc
-    have hra : par p r ≠ -1 := by omega
-    refine ⟨r, by omega, ?_⟩
-    rw [ho.isl_pos r (by omega) hra, rootOf_self hself, hrc]
-  · intro t h m ht hm
-    rw [← par_eq h, ho.done t (by omega) ((hact t).mpr ht),
-      isMinOf_unique hm (rootOf_isMin hI hconn t)]
+  have f := assign_facts hs hI hact hconn ho
+  exact ⟨p, out, e, eo, f.isz, f.psz, f.neg, f.rng, f.eq_iff, f.lt_iff, f.surj, f.compressed, ho.ndof⟩
+
+
+/-! ## the whole of `mj_island` -/
+
+/-- **Islands are the connected components of coupling; index maps** (`maps_inverse`).  For any number of
+    trees, dofs and constraint rows: given the trees incident to each constraint (`rows`; as produced by
+    `treeNext`: one dynamic tree, two trees at most one of which is static, or the dynamic trees of a Jacobian
+    scan) and the tree lists of the stiffness-active flexes, the model of `mj_island` runs to completion — no read
+    or write outside an array, no SHOULD-NOT-OCCUR miscount — and its output satisfies `IslandSpec`:
+    * `tree_island` numbers the connected components of the graph of merged tree pairs in ascending order of
+      their smallest tree, -1 exactly for trees without constraint (`AssignSpec`);
+    * `dof_island[d] = tree_island[dof_treeid[d]]`, `nidof` = number of constrained dofs;
+    * `efc_island[i]` is the island of *every* dynamic tree of the constraint that row `i` belongs to;
+    * `map_dof2idof`/`map_idof2dof`, `map_efc2iefc`/`map_iefc2efc` and (`map_itree2tree` with its ghost inverse)
+      are mutually inverse permutations; island `k` occupies the contiguous block
+      `[island_*adr[k], island_*adr[k] + island_n*[k])`, blocks are sized by the island's member count, addressed
+      by the exclusive prefix sums, keep the original order, and unconstrained objects follow (`MapsSpec`);
+    * `island_dofadr[k] = map_idof2dof[island_idofadr[k]]` is read inside the array. -/
+theorem maps_inverse (ntree : Nat) (dofnum : Array Int) (dofTree : List Nat)
+    (rows : List (Option (List Int))) (flexes : List (List (Int × Bool)))
+    (hshape : RowsShape false rows) (hrows : ∀ ts, some ts ∈ rows → RowOk ntree ts) (hne : rows ≠ [])
+    (hflex : ∀ f ∈ flexes, ∀ x ∈ f, x.1 < (ntree : Int))
+    (hdn : dofnum.size = ntree) (hdt : ∀ d ∈ dofTree, d < ntree)
+    (hcount : ∀ t (h : t < dofnum.size), dofnum[t] = (dofTree.count t : Int))
+    (hevery : ∀ t, t < ntree → t ∈ dofTree) :
+    ∃ out, island ntree dofnum dofTree rows flexes = some out ∧ IslandSpec ntree dofTree rows flexes out :=
+  island_spec ntree dofnum dofTree rows flexes hshape hrows hne hflex hdn hdt hcount hevery
+
+/-- Unconstrained dofs belong to no island, constrained dofs to the island of their tree: a dof has island -1
+    iff no constraint (and no flex coupling) touches its tree. -/
+theorem dof_unconstrained_iff {ntree : Nat} {dofTree : List Nat} {rows : List (Option (List Int))}
+    {flexes : List (List (Int × Bool))} {out : IslandOut} (s : IslandSpec ntree dofTree rows flexes out)
+    (hdt : ∀ d ∈ dofTree, d < ntree) (d : Nat) (h : d < out.dof_island.size) (h' : d < dofTree.length) :
+    out.dof_island[d] = -1 ↔ ¬ Touched ((schedule rows flexes).map edgeOf) dofTree[d] := by
+  have hlt : dofTree[d] < out.tree_island.size := by
+    have := s.assign.isz; simp only at this; rw [this]; exact hdt _ (List.getElem_mem h')
+  rw [s.dof_eq d h h' hlt]
+  exact s.assign.neg _ hlt
+
+/-- Two constraint rows lie in the same island iff (some, equivalently all) of their trees are connected. -/
+theorem efc_same_island_iff {ntree : Nat} {dofTree : List Nat} {rows : List (Option (List Int))}
+    {flexes : List (List (Int × Bool))} {out : IslandOut} (s : IslandSpec ntree dofTree rows flexes out)
+    (i j : Nat) (hi : i < out.efc_island.size) (hj : j < out.efc_island.size) (ts ts' : List Int)
+    (hts : (owners [] rows)[i]? = some ts) (hts' : (owners [] rows)[j]? = some ts')
+    (t t' : Int) (ht : t ∈ ts) (ht' : t' ∈ ts') (h0 : 0 ≤ t) (h0' : 0 ≤ t')
+    (htt : Touched ((schedule rows flexes).map edgeOf) t.toNat)
+    (htt' : Touched ((schedule rows flexes).map edgeOf) t'.toNat) :
+    out.efc_island[i] = out.efc_island[j] ↔ Conn ((schedule rows flexes).map edgeOf) t.toNat t'.toNat := by
+  obtain ⟨h1, e1, _⟩ := s.efc_eq i hi ts hts t ht h0
+  obtain ⟨h2, e2, _⟩ := s.efc_eq j hj ts' hts' t' ht' h0'
+  rw [e1, e2]
+  exact s.assign.eq_iff _ _ h1 h2 htt htt'
+
+/-! ## `mj_floodFill` (exported, not used by `mj_island`) -/
+
+/-- `mj_floodFill` on a well-formed CSR matrix terminates without leaving `island[nr]`. -/
+theorem floodFill_total {nr : Nat} {rownnz rowadr colind : Array Nat} (ok : CsrOk nr rownnz rowadr colind) :
+    ∃ isl n, floodFill nr rownnz rowadr colind = some (isl, n) ∧ isl.size = nr :=
+  MjProof.Island.floodFill_total ok
+
+/-- **Flood fill labels connected components** (`floodFill_components`): for a symmetric adjacency matrix,
+    -1 exactly for vertices without edges, two labelled vertices share a label iff one is reachable from the
+    other, every id below the returned count is used, and ids ascend with the smallest vertex. -/
+theorem floodFill_components {nr : Nat} {rownnz rowadr colind : Array Nat} (ok : CsrOk nr rownnz rowadr colind)
+    (symm : ∀ u v, Adj rownnz rowadr colind u v → Adj rownnz rowadr colind v u)
+    {isl : Array Int} {n : Nat} (h : floodFill nr rownnz rowadr colind = some (isl, n)) :
+    isl.size = nr ∧
+    (∀ v (hv : v < isl.size), (isl[v] = -1 ↔ rownnz[v]? = some 0) ∧ (-1 ≤ isl[v] ∧ isl[v] < (n : Int))) ∧
+    (∀ u v (hu : u < isl.size) (hv : v < isl.size), isl[u] ≠ -1 → isl[v] ≠ -1 →
+        (isl[u] = isl[v] ↔ Relation.ReflTransGen (Adj rownnz rowadr colind) u v)) ∧
+    (∀ c : Nat, c < n → ∃ v, ∃ hv : v < isl.size, isl[v] = (c : Int)) ∧
+    (∀ u v (hu : u < isl.size) (hv : v < isl.size), isl[u] ≠ -1 → isl[v] ≠ -1 → isl[u] < isl[v] →
+        ∃ u', Relation.ReflTransGen (Adj rownnz rowadr colind) u u' ∧
+              ∀ v', Relation.ReflTransGen (Adj rownnz rowadr colind) v v' → u' < v') :=
+  MjProof.Island.floodFill_components ok symm h
+
+/-- The explicit DFS stack never holds more than `nnz` (= sum of `rownnz`) entries — the size the caller must
+    provide — in any call of the inner loop reachable from a `mj_floodFill` run. -/
+theorem floodFill_stack_bound {nr : Nat} {rownnz rowadr colind : Array Nat} (ok : CsrOk nr rownnz rowadr colind)
+    {i : Nat} (hi : i < nr) {isl : Array Int} {n : Nat}
+    (hpre : (List.range i).foldlM (ffOuterStep rownnz rowadr colind) (Array.replicate nr (-1), 0) = some (isl, n))
+    (hunl : isl[i]? = some (-1)) (hnz : rownnz[i]? ≠ some 0) {isl' : Array Int} {stack' : List Nat}
+    (hc : InnerCalls rownnz rowadr colind n isl [i] isl' stack') :
+    stack'.length ≤ rownnz.toList.sum :=
+  MjProof.Island.floodFill_stack_bound ok hi hpre hunl hnz hc
+
+/-! ## non-vacuity -/
+
+/-- a valid history on 4 trees: contact of tree 2 with the world, contact 3–1, a root query, contact 1–2 -/
+def exOps : List DsuOp := [.merge 2 (-1), .merge 3 1, .root 3, .merge 1 2]
+
+theorem exOps_ok : OpsOk 4 exOps := by
+  have h0 : OpsOk 4 [] := .nil
+  have h1 : OpsOk 4 ([] ++ [DsuOp.merge 2 (-1)]) := .merge h0 (by decide)
+  have h2 : OpsOk 4 (([] ++ [DsuOp.merge 2 (-1)]) ++ [DsuOp.merge 3 1]) := .merge h1 (by decide)
+  have h3 := OpsOk.root (t := 3) h2 ⟨(3, 1), by decide, Or.inl rfl⟩
+  exact OpsOk.merge (a := 1) (b := 2) h3 (by decide)
+
+example := dsu_inv 4 exOps exOps_ok
+example := dsu_classes_eq_connected_components 4 exOps exOps_ok
+example := assign_ascending 4 exOps exOps_ok #[6, 1, 6, 2] (by decide)
+example := dsuRoot_total 4 ([DsuOp.merge 2 (-1), DsuOp.merge 3 1]) (.merge (.merge .nil (by decide)) (by decide)) 3
+  ⟨(3, 1), by decide, Or.inl rfl⟩
+example := merges_classes_eq_connected_components 4 [(2, -1), (3, 1), (1, 2)] (by decide)
+
+/-- a scene: 4 trees (6,1,6,2 dofs); a contact of tree 2 with the world (3 rows), a contact 3–1 (2 rows) -/
+example : ∃ out, island 4 #[6, 1, 6, 2] [0,0,0,0,0,0,1,2,2,2,2,2,2,3,3]
+      [some [-1, 2], none, none, some [3, 1], none] [] = some out ∧
+    IslandSpec 4 [0,0,0,0,0,0,1,2,2,2,2,2,2,3,3] [some [-1, 2], none, none, some [3, 1], none] [] out := by
+  apply maps_inverse
+  · exact .row (by decide) (by decide) (.same (.same (.row (by decide) (by decide) (.same .nil))))
+  · intro ts hts
+    simp only [List.mem_cons, Option.some.injEq, reduceCtorEq, List.not_mem_nil, or_false, false_or] at hts
+    rcases hts with rfl | rfl
+    · exact ⟨by decide, Or.inr (Or.inl ⟨-1, 2, rfl, by decide⟩)⟩
+    · exact ⟨by decide, Or.inr (Or.inl ⟨3, 1, rfl, by decide⟩)⟩
+  · decide
+  · intro f hf; simp at hf
+  · rfl
+  · decide
+  · decide
+  · decide
+
+example := floodFill_components exOk exSymm exRun
 
 end MjProof.C17
